@@ -79,4 +79,35 @@ theorem tie_liveIndexNumber (convM : Nat → Int) (durs : List Nat) (ts sd sn re
             · exact h2 (hl.mp h)
             · exact hn h
 
+/-! ### the same handler for `mode = vod` = `Segments.vodIndex` (C06) -/
+
+theorem tie_vodIndexTime (conv segDur : Int → Int) (n sd sn t : Nat) (ts E F l tsbd scaled rmd rts : Int) (fuel : Nat) :
+    Gen.LiveIndex.vodIndexTime conv segDur sn ts sd n E F l tsbd scaled rmd rts fuel t
+      = resOpt (vodIndex n sd sn (.time t)) := by
+  unfold Gen.LiveIndex.vodIndexTime vodIndex firstLastVod
+  dsimp only
+  have h1 : Int.fdiv (sd : Int) (4 : Int) = ((sd / 4 : Nat) : Int) := fdiv_cast sd 4
+  rw [h1, ← Int.natCast_add, fdiv_cast]
+  by_cases h : (((t + sd / 4) / sd : Nat) : Int) + (sn : Int) < (sn : Int) ∨
+      (((t + sd / 4) / sd : Nat) : Int) + (sn : Int) > (n : Int) + (sn : Int) - 1
+  · rw [if_pos h, if_pos h]; rfl
+  · rw [if_neg h, if_neg h]
+    unfold resOpt
+    dsimp only
+    congr 2
+    omega
+
+theorem tie_vodIndexNumber (conv segDur : Int → Int) (n sd sn : Nat) (k : Int) (ts E F l tsbd scaled rmd rts : Int) (fuel : Nat) :
+    Gen.LiveIndex.vodIndexNumber conv segDur sn ts sd n E F l tsbd scaled rmd rts fuel k
+      = resOpt (vodIndex n sd sn (.number k)) := by
+  unfold Gen.LiveIndex.vodIndexNumber vodIndex firstLastVod
+  dsimp only
+  by_cases h : k < (sn : Int) ∨ k > (n : Int) + (sn : Int) - 1
+  · rw [if_pos h, if_pos h]; rfl
+  · rw [if_neg h, if_neg h]
+    unfold resOpt
+    dsimp only
+    congr 2
+    omega
+
 end DashLive.GenTie
